@@ -515,6 +515,9 @@ private:
         void stackDown(int count = 1)
         {
             stackLevel -= count;
+            // A loop end or break can arrive without its loop start (after a seek into the loop body)
+            if(stackLevel < -1)
+                stackLevel = -1;
         }
 
         LoopStackEntry &getCurStack()
